@@ -1082,7 +1082,11 @@ func ruleIntersectMinMax(c *Ctx, rule string) {
 	highs := map[string]bool{"Right": true, "HighDiagonal": true}
 	n := 0
 	seen := map[ssa.Value]bool{}
-	for _, b := range fn.Blocks {
+	var blocks []*ssa.BasicBlock
+	for _, g := range privateReach(fn) {
+		blocks = append(blocks, g.Blocks...)
+	}
+	for _, b := range blocks {
 		for _, ins := range b.Instrs {
 			v, ok := ins.(ssa.Value)
 			if !ok || seen[v] {
@@ -1195,12 +1199,21 @@ func ruleStaleCount(c *Ctx, rule string) {
 func rulePileImages(c *Ctx, rule string) {
 	sp := c.SPkgs[c.pkg("align/pals").PkgPath]
 	n := 0
+	// Piles, its closures, and the private helpers they hand the intervals to
+	scope := map[*ssa.Function]bool{}
 	for _, fn := range srcFuncs(sp) {
 		root := fn
 		for root.Parent() != nil {
 			root = root.Parent()
 		}
-		if funcName(root) != "pals.(*Piler).Piles" {
+		if funcName(root) == "pals.(*Piler).Piles" {
+			for _, g := range privateReach(fn) {
+				scope[g] = true
+			}
+		}
+	}
+	for _, fn := range srcFuncs(sp) {
+		if !scope[fn] {
 			continue
 		}
 		for _, b := range fn.Blocks {
